@@ -13,10 +13,11 @@ engine's authentic message.
 
 from .. import rig  # noqa: F401
 from .. import agent as agent_mod
-from .. import ber, budget, privxf
+from .. import ber, budget, env, privxf
 from ..rig import OID, World, drive, drive_agen
 
 PROP = "C09"
+CHILD_ENV = {"VF_VIRTUAL_MONOTONIC": "1"}  # a client can grow old without anybody waiting
 LEVEL = "fault_enumeration"
 SHARDS = {"quick": 4, "thorough": 16}
 TIME_CAP = {"quick": 55, "thorough": 1500}
@@ -352,6 +353,22 @@ def attacks(t):
     for trigger in ("not_in_window", "unknown_engine", "replay-b", "authentic-niw-boots-max", "authentic-niw-time-max"):
         yield "spoofed-rediscovery-after-" + trigger, make(trigger)
 
+    # no trigger at all: the client has simply grown OLD (25 hours, 40 days since its
+    # discovery); the attacker answers any discovery probe as engine B and relays to B,
+    # everything addressed to engine A reaches the real engine A
+    def passive(req):
+        try:
+            m = ber.decode_message(req)
+        except ber.BerError:
+            return None
+        usm = m["usm"]
+        if (usm["engine_id"] == b"" and usm["user"] == b"") or usm["engine_id"] == t.engine_b:
+            return agent_b.handle(req)
+        return t.w.agent.handle(req)
+
+    for hours in (25, 24 * 40):
+        yield "spoofed-rediscovery-of-a-client-aged-%dh" % hours, passive
+
 
 def judge(R, t, fault, pos, data, kind, val, steps):
     case = {"level": t.level, "op": t.op, "variant": t.variant, "k": t.k, "fault": fault, "pos": pos, "datagram": "hex:" + data.hex()}
@@ -466,6 +483,10 @@ def run(R):
             idx += 1
             if not R.mine(idx):
                 continue
+            if "-aged-" in name:
+                # virtual time (time.time and time.monotonic alike) moves on for everybody
+                env.CLOCK.advance(3600.0 * int(name.rsplit("-", 1)[1][:-1]))
+                R.mon["attacks_on_aged_clients"] += 1
             kind, val, steps = t.try_attack(responder)
             R.case(("attack", level, op, var, name), True)
             R.mon["multistep_attack_trials"] += 1
